@@ -420,6 +420,21 @@ func (r *Run) opHostile(op *Op) {
 		before.Names, after.Names = withoutName(before.Names, op.B), withoutName(after.Names, op.B)
 		delete(before.Buckets, op.B)
 		delete(after.Buckets, op.B)
+	} else if r.Plan.Config.AutoBucket {
+		// any request may have created the bucket it addresses
+		has := func(l []string) bool {
+			for _, n := range l {
+				if n == op.B {
+					return true
+				}
+			}
+			return false
+		}
+		if has(after.Names) && r.M.Buckets[op.B] == nil {
+			r.M.CreateBucket(op.B)
+			r.probe("hostile request auto-created its bucket")
+		}
+		before.Names, after.Names = withoutName(before.Names, op.B), withoutName(after.Names, op.B)
 	}
 	if d := diffSnap(before, after, except...); d != "" {
 		r.fail("frame.others", fmt.Sprintf("%s on a %s key changes something other than the addressed key: %s %s", op.Sub, keyClass(op.Key), snapSig(d), r.bctx()), "only "+op.B+"/"+strconv.Quote(op.Key)+" may change", d)
@@ -470,6 +485,9 @@ func (r *Run) opHostile(op *Op) {
 	case "rmbucket", "forcerm":
 		if resp.OK() {
 			delete(r.M.Buckets, op.B)
+			if r.Plan.Config.AutoBucket {
+				return // (with auto-creation the look itself would bring the bucket back)
+			}
 			if g := r.quiet("HEAD", target(op.B, "", nil)); g.Status != 404 {
 				r.fail("frame.others", "a bucket deletion that was acknowledged leaves the bucket in place "+r.bctx(), "404", g.String())
 			}
